@@ -310,6 +310,8 @@ def length_items(text):
 
 def direct_oracle(inp, obs):
     if obs["decl"] != "ok":
+        if inp.get("canonical"):
+            return "the DateTime layout %r (items and literal separators only) was refused: %s" % (inp["rule"], obs.get("msg"))
         return None
     if obs.get("e2e"):
         padded, got, direct = obs["e2e"][0]
